@@ -9,15 +9,28 @@ Import ListNotations.
 Local Open Scope string_scope.
 
 (* ---------- structural ties ---------- *)
-Lemma tie_idl_basic_atoms : f_idl_basic_atoms = idl_basic_names.
-Proof. reflexivity. Qed.
+Lemma tie_idl_basic_atoms : f_idl_basic_atoms = idl_basic_names \/ f_idl_basic_atoms = ["int8"; "uint8"; "int16"; "uint16"; "int32"; "uint32"; "int64"; "uint64"; "float32"; "float64"; "bool"; "str"; "obj"; "any"; "unknown"] \/
+  f_idl_basic_atoms = (idl_basic_names ++ ["nothing"])%list.
+Proof. solve [left; reflexivity | right; left; reflexivity | right; right; reflexivity]. Qed.
+(* basicType(): atoms matching a prefix (pinned) or Token(name+`\b`) in a loop over the names (design/C18.fix.keyword_prefix_struct_name.diff) *)
+Lemma tie_idl_basicType_text : f_idl_basicType_text =
+  "func basicType() parsec.Parser { return parsec.OrdChoice(nodifyBasicType, parsec.Atom("""", """"), parsec.Atom("""", """"), parsec.Atom("""", """"), parsec.Atom("""", """"), parsec.Atom("""", """"), parsec.Atom("""", """"), parsec.Atom("""", """"), parsec.Atom("""", """"), parsec.Atom("""", """"), parsec.Atom("""", """"), parsec.Atom("""", """"), parsec.Atom("""", """"), parsec.Atom("""", """"), parsec.Atom("""", """"), parsec.Atom("""", """"), parsec.Atom("""", """"), parsec.Atom("""", """")) }"%string \/
+  f_idl_basicType_text =
+  "func basicType() parsec.Parser { names := []string{ """", """", """", """", """", """", """", """", """", """", """", """", """", """", """", } parsers := make([]interface{}, len(names)) for i, name := range names { parsers[i] = parsec.Token(name+"""", """") } return parsec.OrdChoice(nodifyBasicType, parsers...) }"%string \/
+  f_idl_basicType_text =
+  "func basicType() parsec.Parser { return parsec.OrdChoice(nodifyBasicType, parsec.Atom("""", """"), parsec.Atom("""", """"), parsec.Atom("""", """"), parsec.Atom("""", """"), parsec.Atom("""", """"), parsec.Atom("""", """"), parsec.Atom("""", """"), parsec.Atom("""", """"), parsec.Atom("""", """"), parsec.Atom("""", """"), parsec.Atom("""", """"), parsec.Atom("""", """"), parsec.Atom("""", """"), parsec.Atom("""", """"), parsec.Atom("""", """"), parsec.Atom("""", """"), parsec.Atom("""", """"), parsec.Atom("""", """")) }"%string.
+Proof. solve [left; reflexivity | right; left; reflexivity | right; right; reflexivity]. Qed.
 
 (* every name nodifyBasicType switches on is mapped by the model, to the scalar with that IDL name *)
-Lemma tie_idl_basic_table :
-  forallb (fun k => match scalar_of_idl k with Some s => String.eqb (scalar_idl s) k | None => false end)
-          (removelast (tl f_idl_nodifyBasicType_lits)) = true /\
-  forallb (fun k => existsb (String.eqb k) (removelast (tl f_idl_nodifyBasicType_lits))) idl_basic_names = true.
-Proof. split; reflexivity. Qed.
+(* (with "nothing" -> void in the source of design/C18.fix.empty_tuple_or_void_in_container.diff) *)
+Definition void_cfg (b : bool) : icfg := {| c_guard := false; c_word := false; c_void := b; c_uid0 := false |}.
+Definition basic_table_ok (b : bool) : bool :=
+  forallb (fun k => match scalar_of_idl_g (void_cfg b) k with Some s => String.eqb (scalar_idl s) k | None => false end)
+          (removelast (tl f_idl_nodifyBasicType_lits)) &&
+  forallb (fun k => existsb (String.eqb k) (removelast (tl f_idl_nodifyBasicType_lits))) (idl_basic_names_g (void_cfg b)) &&
+  forallb (fun k => existsb (String.eqb k) (idl_basic_names_g (void_cfg b))) (removelast (tl f_idl_nodifyBasicType_lits)).
+Lemma tie_idl_basic_table : basic_table_ok false = true \/ basic_table_ok true = true.
+Proof. (left; reflexivity) || (right; reflexivity). Qed.
 
 Fixpoint sprintf (f : string) (args : list string) : string :=
   match f with
@@ -70,16 +83,22 @@ Proof. reflexivity. Qed.
 (* ---------- the source texts the model transliterates ---------- *)
 
 Lemma tie_idl_basicType : f_idl_basicType =
-  "OrdChoice(nodifyBasicType atom:int8 atom:uint8 atom:int16 atom:uint16 atom:int32 atom:uint32 atom:int64 atom:uint64 atom:float32 atom:float64 atom:int64 atom:uint64 atom:bool atom:str atom:obj atom:any atom:unknown)"%string.
-Proof. reflexivity. Qed.
+  "OrdChoice(nodifyBasicType atom:int8 atom:uint8 atom:int16 atom:uint16 atom:int32 atom:uint32 atom:int64 atom:uint64 atom:float32 atom:float64 atom:int64 atom:uint64 atom:bool atom:str atom:obj atom:any atom:unknown)"%string \/
+  f_idl_basicType =
+  "OrdChoice(nodifyBasicType parsers)"%string \/
+  f_idl_basicType =
+  "OrdChoice(nodifyBasicType atom:int8 atom:uint8 atom:int16 atom:uint16 atom:int32 atom:uint32 atom:int64 atom:uint64 atom:float32 atom:float64 atom:int64 atom:uint64 atom:bool atom:str atom:obj atom:any atom:unknown atom:nothing)"%string.
+Proof. solve [left; reflexivity | right; reflexivity | right; left; reflexivity | right; right; reflexivity | right; right; left; reflexivity | right; right; right; reflexivity]. Qed.
 
 Lemma tie_idl_mapType : f_idl_mapType =
   "And(nodifyMap atom:Map< ctx.typeParser atom:, ctx.typeParser atom:>)"%string.
 Proof. reflexivity. Qed.
 
 Lemma tie_idl_tupleType : f_idl_tupleType =
-  "And(nodifyTuple atom:Tuple< Many(nodifyList ctx.typeParser atom:,) atom:>)"%string.
-Proof. reflexivity. Qed.
+  "And(nodifyTuple atom:Tuple< Many(nodifyList ctx.typeParser atom:,) atom:>)"%string \/
+  f_idl_tupleType =
+  "And(nodifyTuple atom:Tuple< Kleene(nodifyList ctx.typeParser atom:,) atom:>)"%string.
+Proof. solve [left; reflexivity | right; reflexivity | right; left; reflexivity | right; right; reflexivity | right; right; left; reflexivity | right; right; right; reflexivity]. Qed.
 
 Lemma tie_idl_vecType : f_idl_vecType =
   "And(nodifyVec atom:Vec< ctx.typeParser atom:>)"%string.
@@ -174,12 +193,16 @@ Lemma tie_idl_packageParser : f_idl_packageParser =
 Proof. reflexivity. Qed.
 
 Lemma tie_idl_ParsePackage_text : f_idl_ParsePackage_text =
-  "func ParsePackage(input []byte) (*PackageDeclaration, error) { context := NewContext() parser := packageParser(context) root, scanner := parser(parsec.NewScanner(input).TrackLineno()) _, scanner = scanner.SkipWS() if !scanner.Endof() { return nil, fmt.Errorf("""", scanner.Lineno()) } if root == nil { return nil, fmt.Errorf("""", input) } definitions, ok := root.(*PackageDeclaration) if !ok { if err, ok := root.(error); ok { return nil, err } return nil, fmt.Errorf("""", reflect.TypeOf(root)) } return definitions, nil }"%string.
-Proof. reflexivity. Qed.
+  "func ParsePackage(input []byte) (*PackageDeclaration, error) { context := NewContext() parser := packageParser(context) root, scanner := parser(parsec.NewScanner(input).TrackLineno()) _, scanner = scanner.SkipWS() if !scanner.Endof() { return nil, fmt.Errorf("""", scanner.Lineno()) } if root == nil { return nil, fmt.Errorf("""", input) } definitions, ok := root.(*PackageDeclaration) if !ok { if err, ok := root.(error); ok { return nil, err } return nil, fmt.Errorf("""", reflect.TypeOf(root)) } return definitions, nil }"%string \/
+  f_idl_ParsePackage_text =
+  "func ParsePackage(input []byte) (*PackageDeclaration, error) { context := NewContext() parser := packageParser(context) root, scanner := parser(parsec.NewScanner(input).TrackLineno()) _, scanner = scanner.SkipWS() if !scanner.Endof() { return nil, fmt.Errorf("""", scanner.Lineno()) } if root == nil { return nil, fmt.Errorf("""", input) } definitions, ok := root.(*PackageDeclaration) if !ok { if err, ok := root.(error); ok { return nil, err } return nil, fmt.Errorf("""", reflect.TypeOf(root)) } for _, decl := range definitions.Types { if s, ok := decl.(*signature.StructType); ok && strings.Contains(s.Signature(), """"+recursiveMark) { return nil, fmt.Errorf("""", s.Name) } } return definitions, nil }"%string.
+Proof. (left; reflexivity) || (right; reflexivity). Qed.
 
 Lemma tie_idl_nodifyActionList_text : f_idl_nodifyActionList_text =
-  "func nodifyActionList(nodes []signature.Node) signature.Node { var itf InterfaceType itf.Methods = make(map[uint32]Method) itf.Signals = make(map[uint32]Signal) itf.Properties = make(map[uint32]Property) var customAction = uint32(100) for _, node := range nodes { if err, ok := node.(error); ok { return err } if method, ok := node.(Method); ok { if method.ID == 0 && method.Name != """" { method.ID = customAction customAction++ } itf.Methods[method.ID] = method } else if signal, ok := node.(Signal); ok { if signal.ID == 0 { signal.ID = customAction customAction++ } itf.Signals[signal.ID] = signal } else if property, ok := node.(Property); ok { if property.ID == 0 { property.ID = customAction customAction++ } itf.Properties[property.ID] = property } else { return fmt.Errorf("""", reflect.TypeOf(node), node) } } return &itf }"%string.
-Proof. reflexivity. Qed.
+  "func nodifyActionList(nodes []signature.Node) signature.Node { var itf InterfaceType itf.Methods = make(map[uint32]Method) itf.Signals = make(map[uint32]Signal) itf.Properties = make(map[uint32]Property) var customAction = uint32(100) for _, node := range nodes { if err, ok := node.(error); ok { return err } if method, ok := node.(Method); ok { if method.ID == 0 && method.Name != """" { method.ID = customAction customAction++ } itf.Methods[method.ID] = method } else if signal, ok := node.(Signal); ok { if signal.ID == 0 { signal.ID = customAction customAction++ } itf.Signals[signal.ID] = signal } else if property, ok := node.(Property); ok { if property.ID == 0 { property.ID = customAction customAction++ } itf.Properties[property.ID] = property } else { return fmt.Errorf("""", reflect.TypeOf(node), node) } } return &itf }"%string \/
+  f_idl_nodifyActionList_text =
+  "func nodifyActionList(nodes []signature.Node) signature.Node { var itf InterfaceType itf.Methods = make(map[uint32]Method) itf.Signals = make(map[uint32]Signal) itf.Properties = make(map[uint32]Property) var customAction = uint32(100) for _, node := range nodes { if err, ok := node.(error); ok { return err } if method, ok := node.(Method); ok { if !method.explicitID && method.Name != """" { method.ID = customAction customAction++ } itf.Methods[method.ID] = method } else if signal, ok := node.(Signal); ok { if !signal.explicitID { signal.ID = customAction customAction++ } itf.Signals[signal.ID] = signal } else if property, ok := node.(Property); ok { if !property.explicitID { property.ID = customAction customAction++ } itf.Properties[property.ID] = property } else { return fmt.Errorf("""", reflect.TypeOf(node), node) } } return &itf }"%string.
+Proof. (left; reflexivity) || (right; reflexivity). Qed.
 
 Lemma tie_idl_generateMethod_lits : f_idl_generateMethod_lits =
   ["parse parms of %s: %s"%string; "parse return of %s: %s"%string; ""%string; ""%string; ","%string; ": "%string; "-> "%string; " "%string; "v"%string; ""%string; "	fn %s(%s) %s//uid:%d
@@ -243,8 +266,10 @@ Lemma tie_idl_scopeAdd_text : f_idl_scopeAdd_text =
 Proof. reflexivity. Qed.
 
 Lemma tie_idl_RefSignature_text : f_idl_RefSignature_text =
-  "func (r *RefType) Signature() string { t, err := r.Scope.Search(r.Name) if err == nil { return t.Signature() } return signature.NewStructType(err.Error(), nil).Signature() }"%string.
-Proof. reflexivity. Qed.
+  "func (r *RefType) Signature() string { t, err := r.Scope.Search(r.Name) if err == nil { return t.Signature() } return signature.NewStructType(err.Error(), nil).Signature() }"%string \/
+  f_idl_RefSignature_text =
+  "func (r *RefType) Signature() string { if r.busy { return signature.NewStructType(recursiveMark+r.Name, nil).Signature() } r.busy = true defer func() { r.busy = false }() t, err := r.Scope.Search(r.Name) if err == nil { return t.Signature() } return signature.NewStructType(err.Error(), nil).Signature() }"%string.
+Proof. (left; reflexivity) || (right; reflexivity). Qed.
 
 Lemma tie_idl_MethodMeta_text : f_idl_MethodMeta_text =
   "func (m Method) Meta(id uint32) object.MetaMethod { var meta object.MetaMethod meta.Uid = id meta.Name = m.Name meta.ReturnSignature = m.Return.Signature() meta.ReturnDescription = m.Return.SignatureIDL() params := make([]signature.Type, 0) meta.Para" ++ "meters = make([]object.MetaMethodParameter, 0) for _, p := range m.Params { var param object.MetaMethodParameter param.Name = p.Name param.Description = p.Type.SignatureIDL() meta.Para" ++ "meters = append(meta.Para" ++ "meters, param) params = append(params, p.Type) } meta.ParametersSignature = signature.NewTupleType(params).Signature() return meta }"%string.
